@@ -127,6 +127,10 @@ bi383_next(bitint_iter_t *restrict iter, const bitint383_t *bi)
 			for (; !(tmp & 0b1U); ip++, tmp >>= 1U);
 			res = ij * POS_BITZ + ip;
 			*iter = res + 1U;
+			if (UNLIKELY(*iter == countof(bi->pos) * POS_BITZ)) {
+				/* last positive, the negatives start one further */
+				(*iter)++;
+			}
 		}
 	} else if (*iter > countof(bi->pos) * POS_BITZ &&
 		   *iter < countof(bi->neg) * NEG_BITZ +
@@ -258,6 +262,10 @@ bi447_next(bitint_iter_t *restrict iter, const bitint447_t *bi)
 			for (; !(tmp & 0b1U); ip++, tmp >>= 1U);
 			res = ij * POS_BITZ + ip;
 			*iter = res + 1U;
+			if (UNLIKELY(*iter == countof(bi->pos) * POS_BITZ)) {
+				/* last positive, the negatives start one further */
+				(*iter)++;
+			}
 		}
 	} else if (*iter > countof(bi->pos) * POS_BITZ &&
 		   *iter < countof(bi->pos) * NEG_BITZ +
